@@ -197,6 +197,17 @@ func c07Classes(small bool) map[string][]c07Sc {
 					}), Red: c07Red{Stop: -1, End: 1}, Expect: []string{fmt.Sprintf("panic:%d", a)}})
 			}
 		}
+		if n >= 3 && ew >= 3 {
+			// three mappers, all in flight, panic together: only the first may be handed over, none may block
+			for _, e := range []string{"MapReduce", "MapReduceVoid", "MapReduceChan", "ForEach"} {
+				add(c07Sc{Class: "three-mapper-panics", Entry: e, N: n, Workers: w, GenPanicAt: -1,
+					Items: c07Items(n, func(i int, it *c07It) {
+						if i < 3 {
+							*it = c07It{W: 1, Act: "panic", Wait: "s0,s1,s2"}
+						}
+					}), Red: c07Red{Stop: -1, End: 1}, Expect: []string{"panic:0", "panic:1", "panic:2"}})
+			}
+		}
 		for _, k := range c07Picks(n + 1) {
 			for _, e := range []string{"MapReduce", "MapReduceVoid", "ForEach"} {
 				add(c07Sc{Class: "generator-panic", Entry: e, N: n, Workers: w, GenPanicAt: k,
@@ -358,7 +369,7 @@ func c07RunClasses(t *testing.T, m *vk.M, base int, small bool, rounds int, name
 }
 
 var c07CoreClasses = []string{"normal", "saturate", "reducer-stops-early", "reducer-early-output", "reducer-writes-twice",
-	"mapper-cancel", "reducer-cancel", "first-cancel-wins", "mapper-panic", "generator-panic", "reducer-panic",
+	"mapper-cancel", "reducer-cancel", "first-cancel-wins", "mapper-panic", "three-mapper-panics", "generator-panic", "reducer-panic",
 	"ctx-done-mid-run", "ctx-done-before-call", "finish-error", "reducer-early-output+late-cancel"}
 
 const c07GatedRule = "gated scenarios (callbacks sequenced by harness channels so that one outcome is legal): worker settings {WithWorkers(0),1,2,3,4,default 16} x item counts {0,1,w-1,w,w+1,3w+1,10w} x entry points; asserted: outcome class, each item mapped <=1 (==1 without terminating event), each written value reduced <=1 (==1 when the reducer consumed everything), concurrent mappers <= bound, call returns (25 s watchdog), no goroutine in lib/mr frames once callbacks and generator have returned"
